@@ -227,6 +227,10 @@ void run_case(vf::ctx_t& c)
         return j;
     };
 
+    if (c.args.verbose)
+    {
+        vf::out_t::line("INFO about-to-solve " + witness(nullptr).str());
+    }
     solver_state_t state;
     try
     {
